@@ -275,6 +275,8 @@ def run(ctx, chk):
     # reservations
     from props.c05 import occupied_maps_consulted
     occupied_maps_consulted(ctx, chk, "A10.9", ["start_to_reserved", "start_to_hole", "pending_holes"])
+    from props.c05 import len_takes_greatest
+    len_takes_greatest(ctx, chk, "A10.14")
     # A10.10 = E3: sources that cache absolute offsets pin the placement they were computed from
     from props.c20 import pins
     pins(ctx, chk, "A10.10")
